@@ -191,6 +191,10 @@ func genHeaders(r *core.Rand, plain bool, names []string, maxCred int) hdrTab {
 		} else {
 			k = casing(r, base)
 		}
+		if !plain && r.Chance(1, 8) {
+			// the form under which a trailer field sits in a Go header map (http.TrailerPrefix)
+			k = r.Pick([]string{"Trailer:", "Trailer:", "Trailer:", "trailer:", "Trailer:Trailer:", "TRAILER:"}) + k
+		}
 		h[k] = genValues(r, func() string { return credValue(r, base) })
 	}
 	for i := r.Intn(3); i > 0; i-- {
